@@ -482,8 +482,10 @@ def _pass_inline_setters(fn, cls: Optional[ast.ClassDef]) -> bool:
     return changed
 
 
-def normalize_tree(tree: ast.Module) -> ast.Module:
+def normalize_tree(tree: ast.Module, table: Optional[Dict[str, List[str]]] = None) -> ast.Module:
     tree = copy.deepcopy(tree)
+    _pass_module_constants(tree)
+    _pass_keywords(tree, table if table is not None else _param_table([tree]))
 
     def visit(body, cls, outer):
         for st in body:
@@ -493,6 +495,7 @@ def normalize_tree(tree: ast.Module) -> ast.Module:
                     ch = _pass_inline_setters(st, cls)
                     ch = ch or _pass_inline_helpers(st, ctx)
                     ch = ch or _pass_eta_expand(st)
+                    ch = ch or _pass_len_truth(st)
                     ch = ch or _pass_unpack_paths(st)
                     ch = ch or _pass_split_ranges(st)
                     ch |= _pass_store_then_read(st)
@@ -516,20 +519,27 @@ def normalize_tree(tree: ast.Module) -> ast.Module:
 
 
 _MOD_CACHE: Dict[tuple, ast.Module] = {}
+_TABLE_CACHE: Dict[tuple, Dict[str, List[str]]] = {}
 
 
 def normalized(repo: Repo, relpaths) -> Repo:
     """A copy of ``repo`` whose listed modules are normalised.  Normalised trees are
     cached per module by content digest (a mutant re-normalises only the module it changed)."""
     r = repo
-    for rel in sorted(relpaths):
-        if rel not in repo.modules:
-            continue
+    rels = [rel for rel in sorted(relpaths) if rel in repo.modules]
+    tkey = tuple((rel, repo.modules[rel].digest) for rel in rels)
+    table = _TABLE_CACHE.get(tkey)
+    if table is None:
+        table = _param_table([repo.modules[rel].tree for rel in rels])
+        if len(_TABLE_CACHE) > 64:
+            _TABLE_CACHE.clear()
+        _TABLE_CACHE[tkey] = table
+    for rel in rels:
         m = repo.modules[rel]
-        key = (repo.root, rel, m.digest)
+        key = (repo.root, rel, m.digest, tkey)
         tree = _MOD_CACHE.get(key)
         if tree is None:
-            tree = normalize_tree(m.tree)
+            tree = normalize_tree(m.tree, table)
             if len(_MOD_CACHE) > 256:
                 _MOD_CACHE.clear()
             _MOD_CACHE[key] = tree
@@ -1250,3 +1260,152 @@ def _pass_split_ranges(fn) -> bool:
                     r.id = cur
         return True
     return False
+
+
+# ---------------------------------------------------------------------------
+# N11: `len(P) > 0` style emptiness tests in truth contexts -> truthiness of P
+# N12: keyword arguments of calls to known callees -> positional order
+# N13: names of module-level literal constants -> the literal
+
+
+def _len_truth(e):
+    """(path expr, polarity) if ``e`` is an emptiness comparison of len(path) with 0/1; else None."""
+    if not (isinstance(e, ast.Compare) and len(e.ops) == 1):
+        return None
+    l, op, r = e.left, e.ops[0], e.comparators[0]
+
+    def is_len(x):
+        return isinstance(x, ast.Call) and isinstance(x.func, ast.Name) and x.func.id == "len" and len(x.args) == 1 and not x.keywords and _path_text(x.args[0]) is not None
+
+    def num(x):
+        return x.value if isinstance(x, ast.Constant) and type(x.value) is int else None
+
+    if is_len(l) and num(r) is not None:
+        k = num(r)
+        table = {(ast.Gt, 0): True, (ast.NotEq, 0): True, (ast.GtE, 1): True, (ast.Eq, 0): False, (ast.LtE, 0): False, (ast.Lt, 1): False}
+        pol = table.get((type(op), k))
+        return None if pol is None else (l.args[0], pol)
+    if is_len(r) and num(l) is not None:
+        k = num(l)
+        table = {(ast.Lt, 0): True, (ast.NotEq, 0): True, (ast.LtE, 1): True, (ast.Eq, 0): False, (ast.GtE, 0): False, (ast.Gt, 1): False}
+        pol = table.get((type(op), k))
+        return None if pol is None else (r.args[0], pol)
+    return None
+
+
+def _pass_len_truth(fn) -> bool:
+    changed = False
+
+    def fix(e):
+        nonlocal changed
+        if isinstance(e, ast.BoolOp):
+            e.values = [fix(v) for v in e.values]
+            return e
+        if isinstance(e, ast.UnaryOp) and isinstance(e.op, ast.Not):
+            e.operand = fix(e.operand)
+            return e
+        lt = _len_truth(e)
+        if lt is not None:
+            changed = True
+            p, pol = lt
+            new = copy.deepcopy(p)
+            for x in ast.walk(new):
+                ast.copy_location(x, e)
+            return new if pol else ast.copy_location(ast.UnaryOp(op=ast.Not(), operand=new), e)
+        if isinstance(e, ast.Call) and isinstance(e.func, ast.Name) and e.func.id == "len" and len(e.args) == 1 and _path_text(e.args[0]) is not None and not e.keywords:
+            # bare len(P) used as a truth value
+            changed = True
+            new = copy.deepcopy(e.args[0])
+            for x in ast.walk(new):
+                ast.copy_location(x, e)
+            return new
+        return e
+
+    for n in list(_own_nodes(fn)):
+        if isinstance(n, (ast.If, ast.While, ast.IfExp, ast.Assert)):
+            n.test = fix(n.test)
+    return changed
+
+
+_STD_PARAMS = {
+    "set_result": ["result"], "set_exception": ["exception"], "add_done_callback": ["fn"], "remove_timeout": ["timeout"],
+    "call_soon": ["callback"], "call_soon_threadsafe": ["callback"], "call_later": ["delay", "callback"],
+}
+
+
+def _param_table(trees) -> Dict[str, List[str]]:
+    seen: Dict[str, List[List[str]]] = {}
+    for t in trees:
+        for n in ast.walk(t):
+            if isinstance(n, FuncNode) and not n.args.posonlyargs:
+                ps = [a.arg for a in n.args.args]
+                if ps and ps[0] in ("self", "cls"):
+                    ps = ps[1:]
+                seen.setdefault(n.name, []).append(ps)
+    out = dict(_STD_PARAMS)
+    for nm, variants in seen.items():
+        if all(v == variants[0] for v in variants):
+            out[nm] = variants[0]
+    return out
+
+
+def _pass_keywords(tree, table) -> bool:
+    changed = False
+    for c in ast.walk(tree):
+        if not (isinstance(c, ast.Call) and c.keywords) or any(k.arg is None for k in c.keywords) or any(isinstance(a, ast.Starred) for a in c.args):
+            continue
+        nm = q.call_attr(c)
+        ps = table.get(nm)
+        if not ps:
+            continue
+        # partial(f, ...) etc. are not in the table by construction; only fill a gap-free positional prefix
+        kw = {k.arg: k.value for k in c.keywords}
+        if not set(kw) <= set(ps):
+            continue
+        n0 = len(c.args)
+        want = ps[n0:n0 + len(kw)]
+        if set(want) != set(kw):
+            continue
+        c.args = list(c.args) + [kw[p_] for p_ in want]
+        c.keywords = []
+        changed = True
+    return changed
+
+
+def _pass_module_constants(tree) -> bool:
+    """Private module-level names bound exactly once to a number literal and never re-bound are replaced by the literal."""
+    consts = {}
+    counts: Dict[str, int] = {}
+    for st in tree.body:
+        for p in _stored_paths(st):
+            counts[p] = counts.get(p, 0) + 1
+        if isinstance(st, (ast.Assign, ast.AnnAssign)) and getattr(st, "value", None) is not None:
+            tg = st.targets[0] if isinstance(st, ast.Assign) and len(st.targets) == 1 else (st.target if isinstance(st, ast.AnnAssign) else None)
+            if isinstance(tg, ast.Name) and tg.id.startswith("_") and isinstance(st.value, ast.Constant) and type(st.value.value) in (int, float) :
+                consts[tg.id] = st.value
+    for n in ast.walk(tree):
+        if isinstance(n, (ast.Global,)):
+            for nm in n.names:
+                consts.pop(nm, None)
+    consts = {k: v for k, v in consts.items() if counts.get(k) == 1}
+    if not consts:
+        return False
+    changed = False
+
+    class T(ast.NodeTransformer):
+        def visit_Name(self, node):
+            nonlocal changed
+            if isinstance(node.ctx, ast.Load) and node.id in consts:
+                changed = True
+                return ast.copy_location(ast.Constant(value=consts[node.id].value), node)
+            return node
+
+    # do not touch functions that bind the same name locally
+    for fn in [n for n in ast.walk(tree) if isinstance(n, FuncNode)]:
+        local = set(_params(fn)) | {p for st in _own_nodes(fn) if isinstance(st, (ast.stmt, ast.ExceptHandler)) for p in _stored_paths(st) if p.isidentifier()}
+        if local & set(consts):
+            continue
+        for i, st in enumerate(fn.body):
+            fn.body[i] = T().visit(st)
+        fn.args.defaults = [T().visit(d) for d in fn.args.defaults]
+    return changed
